@@ -668,7 +668,7 @@ impl CommandHub {
             .job
             .client_token()
             .and_then(|token| self.clients.get_mut(&token));
-        task.job.on_finish(&mut self.server, client, false);
+        task.job.on_finish(&mut self.server, client, timed_out);
         self.in_flight
             .retain(|_, in_flight_task_id| *in_flight_task_id != task_id);
         // POST-CONDITION: every in-flight entry pointing at this finished task
